@@ -5,7 +5,7 @@
 (* CountsOk, ContentOk, ResMonotone, MaxIdOk and the prescribed post-state) and carries the ghost *)
 (* state.  Arguments are drawn from the live identifiers of the current document.                 *)
 (*                                                                                                *)
-(*   dev    switches of the impl-shaped layer (Editing!DevAsIs / DevRepaired), fixed per behaviour *)
+(*   dev    switches of the impl-shaped layer (Editing!DevAsIs / DevSeeded), fixed per behaviour   *)
 (*   doc    the document (objects, trailer, max_id, pending bookmark targets)                     *)
 (*   aux    Editing!Aux(doc): reachable set, page sequence, content ... (a function of doc)     *)
 (*   gh     ghost: issued ids, content each page must show                                        *)
